@@ -76,7 +76,7 @@ const c08Failing = "{namespace f}\n/** @param? u */\n{template .block}\nA{let $z
 	"/** @param? u */\n{template .param}\nB{call .w}{param z}x{$u.nope}{/param}{/call}\n{/template}\n/** @param z */\n{template .w}\n{$z}\n{/template}\n" +
 	"/** @param? u */\n{template .log}\nC{log}l{$u.nope}{/log}\n{/template}\n/** @param? u */\n{template .plain}\nD{$u.nope}\n{/template}\n"
 
-var c08Prior = []string{"", "f.block", "f.param", "f.log", "f.plain", "", "a.other"}
+var c08Prior = []string{"", "f.block", "f.param", "f.log", "f.plain", "", "a.other", ""}
 
 // H_pure: renders of template set t with the same (symbolic) data under frozen memory: every
 // cell reachable from the compiled registry, the data map, the injected data and all
@@ -94,6 +94,9 @@ func H_pure(t, d int, oblig bool, prior int) {
 	} else if prior == 6 {
 		return
 	}
+	if t == 3 && prior == 7 {
+		return
+	}
 	if oblig {
 		PrintDirectives["verifBang"] = PrintDirective{verifBang, []int{0}, false}
 		ObligatoryPrintDirectiveNames = []string{"verifBang"}
@@ -103,7 +106,7 @@ func H_pure(t, d int, oblig bool, prior int) {
 	if c08Msgs != nil {
 		shared = shared.WithMessages(c08Msgs)
 	}
-	before := verifDeepDigest(tofu, m, ij, shared) + verifGlobalsDigest()
+	before, beforeG := verifDeepDigest(tofu, m, ij, shared), verifGlobalsDigest()
 	verifFreeze("compiled registry", tofu)
 	verifFreeze("renderer", shared)
 	verifFreeze("caller data", m, ij)
@@ -116,6 +119,23 @@ func H_pure(t, d int, oblig bool, prior int) {
 	case prior == 5:
 		w := &faultWriter{}
 		tofu.NewRenderer("a.t").Inject(ij).Execute(w, m)
+	case prior == 7:
+		// another configuration of the obligatory directives in between (the list is replaced by one
+		// of the same length and restored): the later renders must not see the interlude
+		if !oblig {
+			return
+		}
+		verifUnfreeze()
+		ObligatoryPrintDirectiveNames = []string{"escapeUri"}
+		oi, _ := verifRenderIJ(tofu, "a.t", m, ij)
+		// (verifBang appends "!" to every printed value, escapeUri never does: the two
+		// configurations cannot write the same bytes for a template that prints something)
+		verifAssert(oi != out0, "a render under another configuration of the obligatory print directives writes what the earlier configuration wrote")
+		ObligatoryPrintDirectiveNames = []string{"verifBang"}
+		verifFreeze("compiled registry", tofu)
+		verifFreeze("renderer", shared)
+		verifFreeze("caller data", m, ij)
+		verifFreezeGlobals()
 	case prior == 6:
 		po, perr := verifRenderIJ(tofu, c08Prior[prior], m, ij)
 		verifAssert(perr == nil, "harness: the prior render failed")
@@ -137,11 +157,14 @@ func H_pure(t, d int, oblig bool, prior int) {
 	out1, err1 := exec()
 	out2, err2 := exec()
 	verifUnfreeze()
-	after := verifDeepDigest(tofu, m, ij, shared) + verifGlobalsDigest()
+	after, afterG := verifDeepDigest(tofu, m, ij, shared), verifGlobalsDigest()
 	verifObserve("out", out0)
 	verifAssert((err0 == nil) == (err1 == nil) && (err1 == nil) == (err2 == nil), "a later render of the same template with the same data differs in outcome")
 	verifAssert(out0 == out1 && out1 == out2, "a later render of the same template with the same data writes different bytes")
-	verifAssert(before == after, "native: the compiled bundle, the data or a registry changed during rendering")
+	verifAssert(before == after, "native: the compiled bundle, the data or the renderer changed during rendering")
+	if verifConfirmingFrozen() {
+		verifAssert(beforeG == afterG, "native: a package-level variable changed during rendering")
+	}
 	if !verifSymbolic() {
 		// native only (confirms findings about shared state): overlapping renders write what one writes alone
 		var wg sync.WaitGroup
